@@ -1,5 +1,6 @@
 import LexgenModel.Proofs.NextLocations
 import LexgenModel.Proofs.RefRefine
+import LexgenModel.Proofs.ActionNumbering
 /-!
 # C10 — Semantic-action protocol
 -/
@@ -64,5 +65,30 @@ theorem C10_refines_reference (items : LexerDef) (c : Compiled) (h : compileLexe
     (r : Option (Item τ ε) × LState σ) (hn : next (c.config actions width input) st = some r) :
     RefNext items c ctxAt (c.config actions width input) st r :=
   next_refines_ref items c h hok ctxAt hnum actions width input st hr r hn
+
+/-- **The numbering of the semantic-action table is irrelevant; rules with equal actions may share an entry.** Rename the action index of every
+rule of a definition by ANY function `f` (not necessarily injective: `f` may send all rules without a right-hand side, whose actions are all
+`skip`, to one index, or permute the table). The model of the macro then produces the same automata with the accept values renamed and nothing else
+changed (`compileLexer_mapV`: no stage compares, sorts or deduplicates accept values), and if the action table `acts'` of the renamed lexer gives every
+renamed index the action the rule had (`acts' (f k) = acts k`), the two generated lexers return the same items after any number of calls on every input
+and end in the same observable state. (`IndexBlind`: an action does not read the label `View.action` under which the MODEL calls it — an artefact of
+the model: a Rust action has no access to its index; without the hypothesis the statement is false of the model, `ActionNumbering.lean` has the
+counterexample.) This is what licenses comparing the implementation's action indices with the model's up to renaming. -/
+theorem C10_action_numbering_irrelevant (f : Nat → Nat) (items : LexerDef) (c : Compiled) (hc : compileLexer items = .ok c)
+    (acts acts' : Nat → Action σ τ ε) (h : ∀ k, acts' (f k) = acts k) (hblind : ∀ k, (acts k).IndexBlind)
+    (width : Nat → Nat) (input : Option (List Nat)) (user : σ) (chars : List Nat) (n : Nat) :
+    compileLexer (mapRhs f items) = .ok (c.mapV f) ∧
+    (runN ((c.mapV f).config acts' width input) n (initState user chars)).1 = (runN (c.config acts width input) n (initState user chars)).1 ∧
+    (runN ((c.mapV f).config acts' width input) n (initState user chars)).2.obs = (runN (c.config acts width input) n (initState user chars)).2.obs :=
+  action_numbering_irrelevant f items c hc acts acts' h hblind width input user chars n
+
+/-- the pipeline is natural in the action indices (errors included) -/
+theorem C10_pipeline_natural_in_action_indices (f : Nat → Nat) (items : LexerDef) :
+    compileLexer (mapRhs f items) = (compileLexer items).map (Compiled.mapV f) :=
+  compileLexer_mapV f items
+
+/-- the sugar forms satisfy the hypothesis -/
+example : (Action.skip : Action σ τ ε).IndexBlind ∧ ∀ t : τ, (Action.simple t : Action σ τ ε).IndexBlind :=
+  ⟨Action.indexBlind_skip, fun t => Action.indexBlind_simple t⟩
 
 end Lexgen
